@@ -90,12 +90,20 @@ fn prop(sc: &Scenario, info: &mut CaseInfo) -> Verdict {
 
 pub fn run(ctx: &Ctx, rep: &mut Report, replay: Option<&serde_json::Value>) {
     rep.rule("E-rpki histories of 2-4 runs, 1-2 TALs with 1-3 rsync URIs each (in up to 3 modules); per URI and run the server offers the matching certificate / a certificate with another key / undecodable bytes / an expired certificate with the right key / nothing; modules fail, runs go offline, TAL files are re-keyed between runs; oracle: reference model of TA selection (URIs in order; a decodable download replaces the stored copy of that URI, otherwise the stored copy is used; first certificate matching the TAL key that validates is used, else the TAL contributes nothing) judged through payload equality and accepted/rejected point counts, plus: every stored trust anchor file decodes; non-trivial = a later run with a non-matching/failed download, unreachable module or re-keyed TAL (stored copy in play); distinct by serialised scenario");
-    rep.assume("https trust anchor URIs are exercised by the RRDP/HTTPS legs (C38 and the transport checks), this check uses rsync URIs only");
+    rep.assume("leg (a) uses rsync URIs only; leg (b) (module c10h) mixes https URIs served by the in-harness HTTPS server with rsync URIs for a single TAL");
     ctx.shrink_iters.store(120, std::sync::atomic::Ordering::Relaxed);
     if let Some(v) = replay {
+        let t: Tagged<serde_json::Value> = serde_json::from_value(v.clone()).expect("replay");
+        if t.sub == "histories" {
+            // mixed https / rsync leg
+            crate::c10h::run(ctx, rep, replay);
+            return;
+        }
         let t: Tagged<Scenario> = serde_json::from_value(v.clone()).expect("replay");
         run_case(ctx, rep, &t.sub, &t.case, prop);
         return;
     }
     run_prop_par(ctx, rep, "history", ctx.tier.pick(240, 6000), 8, || genome(260).prop_map(|w| scenario(&w)), prop);
+    // second leg: one TAL with mixed https (in-harness HTTPS server) and rsync URIs
+    crate::c10h::run(ctx, rep, None);
 }
